@@ -45,7 +45,7 @@ def ms(dt):
 def md(m, u):
     d = {"bspMarket": m.get("bsp", True), "turnInPlayEnabled": True, "persistenceEnabled": m.get("persist", True), "marketBaseRate": 5.0,
          "eventId": m.get("event", "20000001"), "eventTypeId": "7", "numberOfWinners": m.get("winners", 1), "bettingType": "ODDS",
-         "marketType": m.get("type", "WIN"), "marketTime": m.get("market_time", ISO), "suspendTime": m.get("market_time", ISO), "openDate": m.get("market_time", ISO),
+         "marketType": m.get("type", "WIN"), "marketTime": u.get("market_time", m.get("market_time", ISO)), "suspendTime": u.get("market_time", m.get("market_time", ISO)), "openDate": m.get("market_time", ISO),
          "bspReconciled": u.get("bsp_rec", False), "complete": True, "inPlay": u.get("inplay", False), "crossMatching": False, "runnersVoidable": False,
          "numberOfActiveRunners": sum(1 for r in u["runners"] if r.get("status", "ACTIVE") == "ACTIVE"), "betDelay": u.get("delay", 0),
          "status": u.get("status", "OPEN"), "regulators": ["MR_INT"], "countryCode": "GB", "discountAllowed": True, "timezone": "UTC",
